@@ -61,7 +61,15 @@ JudgeEntry(c) ==
     \cup (IF Len(rs) = 0 THEN {"C05.EntryRetries"} ELSE {})
     \cup Family(c)
 
+\* C10 on an inverter object whose keep-alive was chosen through set_keep_alive(): steps = [ok, open, tr] after each call
+JudgeLife(c) ==
+    (IF c.worst > 1 THEN {"C10.OneTransport"} ELSE {})
+    \cup (IF ~c.ka /\ \E k \in 1..Len(c.steps) : c.steps[k].open # 0 THEN {"C10.NoLeak"} ELSE {})
+    \cup (IF c.ka /\ \E k \in 1..(Len(c.steps) - 1) : c.steps[k].ok /\ c.steps[k + 1].ok /\ c.steps[k].tr # c.steps[k + 1].tr
+          THEN {"C10.Reuse"} ELSE {})
+
 Judge(c) == CASE c.case = "hist" -> JudgeHist(c) [] c.case = "call" -> JudgeCall(c) [] c.case = "entry" -> JudgeEntry(c)
+              [] c.case = "life" -> JudgeLife(c)
 
 VARIABLES cid, done
 Init == cid \in 1..N /\ done = FALSE
